@@ -20,7 +20,7 @@ ASSUMPTIONS = [
   "loops entered from a predecessor SCC and as graph sources; rings of 3..12 blocks; convergent (latching) and divergent true loops; update_once members",
   "false loops: the design is bit-level acyclic, so the reference fixed point is unique and must be matched from EVERY pre-state",
   "convergent true loops: only the fixed-point property is checked (their value legitimately depends on history)",
-  "acyclic-only passes (Simple, HeuristicTopo, Unroll) must reject a cyclic design with an exception (any type: dump_dag needs graphviz' dot binary)",
+  "acyclic-only passes (Simple, HeuristicTopo, Unroll) must reject a cyclic design with UpblkCyclicError (also on a machine without the graphviz tools)",
   "hang detection: a 20 s alarm per design and pass group",
 ]
 
@@ -44,6 +44,11 @@ def input_seqs(d, L):
   return [list(s) for s in itertools.product(letters, repeat=L)]
 
 
+def _no_viewer(*a, **k):
+  """environment answer for the drawing aid the passes call before they raise: the graphviz viewer is not installed"""
+  raise FileNotFoundError(2, "No such file or directory", "xdg-open")
+
+
 def is_cyclic_error(ex):
   from pymtl3.dsl.errors import UpblkCyclicError
   return isinstance(ex, UpblkCyclicError)
@@ -57,14 +62,16 @@ def check_design(name, d, expect, tier, acc, only_group=None):
   if tier == "quick": seqs = seqs[:: max(1, len(seqs) // 64)] if expect in ("diverge",) else seqs
   old = signal.signal(signal.SIGALRM, _alarm)
   try:
-    for g in ACYCLIC:
+    for g, viewer in [(g, v) for g in ACYCLIC for v in (None, _no_viewer)]:
       if only_group and g != only_group: continue
       try:
-        dut = Dut(d, g, shuffle=(lambda n: 0))
+        dut = Dut(d, g, shuffle=(lambda n: 0), dump_dag=viewer)
         dut.close()
         acc.violation(f"{g}:cyclic-design-accepted:{dcls}", dict(base, group=g, hist=[]), "rejected with an error", "scheduled", f"expect={expect}")
       except Exception as ex:
         acc.count("rejected"); acc.count("rejected_with_" + type(ex).__name__)
+        if not is_cyclic_error(ex):
+          acc.violation(f"{g}:cyclic-design-rejected-with-another-error:{dcls}", dict(base, group=g, hist=[]), "UpblkCyclicError", f"{type(ex).__name__}: {str(ex)[:120]}", f"expect={expect}")
       acc.count("executions")
     for g in CYCLIC:
       if only_group and g != only_group: continue
